@@ -10,11 +10,15 @@ use serde_json::{json, Value};
 use sos_account::{Account, LocalAccount};
 use sos_backend::BackendTarget;
 use sos_core::{
-    commit::CommitHash, crypto::AccessKey, decode, events::EventLog, AccountId, SecretId, VaultId,
+    commit::CommitHash,
+    crypto::{AccessKey, KeyDerivation, PrivateKey},
+    decode,
+    events::EventLog,
+    AccountId, SecretId, VaultCommit, VaultEntry, VaultId,
 };
 use sos_login::DelegatedAccess;
 use sos_reducers::FolderReducer;
-use sos_vault::{AccessPoint, SecretAccess, Vault};
+use sos_vault::{SecretAccess, Vault};
 use std::collections::BTreeMap;
 
 #[derive(Clone, Debug, Default, PartialEq)]
@@ -119,22 +123,48 @@ pub struct SnapError {
     pub detail: String,
 }
 
-/// Decrypt every row of a vault with `key` into a FolderView.
+/// Cache of derived keys: Argon2 at default cost is ~50 ms per folder
+/// per unlock, which would dominate three-way comparisons after every
+/// step. The derivation itself is the repo's (`Vault::deriver`); only the
+/// repetition is avoided. Keyed by (kdf, salt, seed, password).
+static KEY_CACHE: std::sync::OnceLock<std::sync::Mutex<std::collections::HashMap<String, std::sync::Arc<PrivateKey>>>> = std::sync::OnceLock::new();
+
+pub fn derive_cached(vault: &Vault, key: &AccessKey) -> Result<std::sync::Arc<PrivateKey>, SnapError> {
+    use secrecy::ExposeSecret;
+    match key {
+        AccessKey::Password(password) => {
+            let salt_s = vault.salt().ok_or(SnapError { class: "vault_not_init", detail: "no salt".into() })?.clone();
+            let ck = format!("{}|{}|{:?}|{}", vault.kdf(), salt_s, vault.seed().map(|s| hex::encode(s.as_ref())), password.expose_secret());
+            let cache = KEY_CACHE.get_or_init(Default::default);
+            if let Some(k) = cache.lock().unwrap().get(&ck) {
+                return Ok(k.clone());
+            }
+            let salt = KeyDerivation::parse_salt(&salt_s).map_err(|e| SnapError { class: "bad_salt", detail: format!("{e}") })?;
+            let derived = vault.deriver().derive(password, &salt, vault.seed()).map_err(|e| SnapError { class: "derive_failed", detail: format!("{e}") })?;
+            let k = std::sync::Arc::new(PrivateKey::Symmetric(derived));
+            cache.lock().unwrap().insert(ck, k.clone());
+            Ok(k)
+        }
+        AccessKey::Identity(id) => Ok(std::sync::Arc::new(PrivateKey::Asymmetric(id.clone()))),
+    }
+}
+
+/// Decrypt every row of a vault with `key` into a FolderView (the repo's
+/// `Vault::decrypt` + `decode`, i.e. what `AccessPoint::read_secret` does).
 pub async fn view_of_vault(vault: Vault, key: &AccessKey) -> Result<FolderView, SnapError> {
     let name = vault.name().to_string();
     let flags = vault.flags().bits();
-    let ids: Vec<SecretId> = vault.keys().copied().collect();
-    let mut ap: AccessPoint<sos_backend::Error> = AccessPoint::new(vault);
-    let meta = ap.unlock(key).await.map_err(|e| SnapError { class: "unlock_failed", detail: format!("{e}") })?;
+    let pk = derive_cached(&vault, key)?;
+    let meta_aead = vault.header().meta().ok_or(SnapError { class: "vault_not_init", detail: "no vault meta".into() })?;
+    let meta_buf = vault.decrypt(&pk, meta_aead).await.map_err(|e| SnapError { class: "unlock_failed", detail: format!("{e}") })?;
+    let meta: sos_vault::VaultMeta = decode(&meta_buf).await.map_err(|e| SnapError { class: "vault_meta_decode_failed", detail: format!("{e}") })?;
     let mut secrets = BTreeMap::new();
-    for id in ids {
-        match ap.read_secret(&id).await {
-            Ok(Some((m, s, _))) => {
-                secrets.insert(id, (meta_json(&m), secret_json(&s)));
-            }
-            Ok(None) => return Err(SnapError { class: "row_vanished", detail: format!("secret {id} listed but not readable") }),
-            Err(e) => return Err(SnapError { class: "decrypt_failed", detail: format!("secret {id}: {e}") }),
-        }
+    for (id, VaultCommit(_, VaultEntry(meta_aead, secret_aead))) in vault.iter() {
+        let mb = vault.decrypt(&pk, meta_aead).await.map_err(|e| SnapError { class: "decrypt_failed", detail: format!("secret {id} meta: {e}") })?;
+        let sb = vault.decrypt(&pk, secret_aead).await.map_err(|e| SnapError { class: "decrypt_failed", detail: format!("secret {id} value: {e}") })?;
+        let m: sos_vault::secret::SecretMeta = decode(&mb).await.map_err(|e| SnapError { class: "row_decode_failed", detail: format!("secret {id} meta: {e}") })?;
+        let sv: sos_vault::secret::Secret = decode(&sb).await.map_err(|e| SnapError { class: "row_decode_failed", detail: format!("secret {id} value: {e}") })?;
+        secrets.insert(*id, (meta_json(&m), secret_json(&sv)));
     }
     Ok(FolderView { name, flags, description: meta.description().to_string(), secrets })
 }
